@@ -280,7 +280,7 @@ func (h *harness) record(op string, k *kase, fs []finding) {
 			h.rep.Count(what)
 			h.nfail++
 			if h.nfail <= 120 {
-				h.cases = append(h.cases, vh.Case{Kind: f.kind, Key: f.key, Op: op, Go: clip(f.goR), Model: clip(f.model), Detail: f.detail})
+				h.cases = append(h.cases, vh.Case{Kind: f.kind, Key: f.key, Op: op, Go: clip(f.goR), Model: clip(f.model), Detail: f.detail + "; line: " + clip(op)})
 			}
 			if k != nil && len(h.failing) < 40 {
 				sig := f.sig()
@@ -408,6 +408,16 @@ func (h *harness) replayFile(path string, kind string) {
 		os.Exit(2)
 	}
 	for _, l := range strings.Split(string(b), "\n") {
+		// a protocol line stands alone, or is the value of an "op" field of a JSON replay written by ./check
+		l = strings.TrimSpace(l)
+		if i := strings.Index(l, "\"op\": \""); i >= 0 {
+			l = l[i+7:]
+		} else if strings.HasPrefix(l, "\"") || strings.HasPrefix(l, "{") {
+			continue
+		}
+		if !strings.HasPrefix(l, "ttlp.doc ") && !strings.HasPrefix(l, "ttld.dec ") && !strings.HasPrefix(l, "nt x") {
+			continue
+		}
 		if i := strings.Index(l, "ttlp.doc "); i >= 0 {
 			f := strings.Fields(strings.TrimRight(strings.TrimSpace(l[i:]), "\","))
 			if len(f) != 5 {
